@@ -121,6 +121,8 @@ def shape_cases(tier):
                     e['VF_LIBCHK'] = None
                 out.append(tree_case('c02', sh, op, e, sfx=sfx))
         out.append(tree_case('c02', sh, 'GET', {'VF_CMP': 1, 'VF_SHAPECHK': None}, sfx='.ucmp'))
+        # the same bound through the string API (qtreetbl_get: key = the characters plus the terminator), hits and misses
+        out.append(tree_case('c02', sh, 'GET', {'VF_CMP': 1, 'VF_SHAPECHK': None, 'VF_API': 1, 'VF_KSZ': 2, 'VF_OPKSZ': 2}, sfx='.ucmp.str'))
         if sh['n'] <= (6 if q else 7):   # 5 nodes: smallest tree in which a failed insertion below a split 4-node needs the fix-up rotations on the way up
             for fd, fs in FAILS[:3]:
                 out.append(tree_case('c02', sh, 'PUT', dict(fd, VF_ALLOCFAIL=None, VF_SHAPECHK=None, VF_SHAPE_OWNER_C02=None), sfx='.' + fs))
